@@ -202,10 +202,27 @@ def run(ctx: core.Ctx):
 def replay(data):
     inp = data["input"]
     from htstabilizer.stabilizer import Stabilizer
-    if inp.get("paulis"):
+    if "job" in inp and "circuit" in inp:
+        from .c07 import eval_circuit
+        n, conn, gl, layout = inp["job"]
+        bad = [r for r in eval_circuit((n, conn, [(nm, list(q)) for nm, q in gl], layout)) if not r[1] and r[0].startswith("C14")]
+        for r in bad:
+            print("REPRODUCED:", r[3])
+        return 1 if bad else 0
+    if inp.get("paulis") and all(isinstance(l, str) for l in inp["paulis"]):
+        labels = list(inp["paulis"])
+        n = len(labels[0].lstrip("+-"))
         try:
-            st = Stabilizer(list(inp["paulis"]))
-            print("Stabilizer(", inp["paulis"], ") ->", st.to_list(), st.to_list(True), "R=", st.R.tolist(), "S=", st.S.tolist(), "phases=", st.phases.tolist())
+            st = Stabilizer(list(labels))
         except Exception as e:
-            print("raised", type(e).__name__, e)
+            print("Stabilizer(", labels, ") raised", type(e).__name__, e, "(a malformed list is expected to be rejected)")
+            return 0 if any(len(l.lstrip("+-")) != n or set(l.lstrip("+-")) - set("IXYZ") for l in labels) or len(labels) != n else 1
+        canon = [(l if l[0] in "+-" else "+" + l) for l in labels]
+        exp, mir = st.to_list(), st.to_list(qiskit_convention=True)
+        gens = adapt.gens_of_stabilizer(st)
+        want = [P.from_label(l) for l in canon]
+        ok = exp == canon and mir == [c[0] + c[1:][::-1] for c in canon] and [tuple(g) for g in gens] == [tuple(w) for w in want]
+        print("Stabilizer(", labels, ") -> to_list", exp, "reversed", mir, "| as expected:", ok)
+        return 0 if ok else 1
+    print("no single failing input in this replay file:", inp)
     return 1
